@@ -1461,6 +1461,7 @@ class SchemaValidator:
             else None,
             thread_scope=self._thread_groups[object_promise_context].scope
             if object_promise_context is not None
+            and object_promise_context in self._thread_groups
             else None,
         )
         self._pipelines[path] = pipeline
